@@ -26,6 +26,8 @@ var mutants = []mutant{
 	{"C01-m7", "C01", "x/oracle/keeper/msg_server.go", "	if msg.RequestID <= k.GetRequestLastExpired(ctx) {", "	if msg.RequestID < k.GetRequestLastExpired(ctx) {", "C01.R3:not-expired", "a report for the just-expired request is accepted"},
 	{"C01-m8", "C01", "x/oracle/abci.go", "	k.SetPendingResolveList(ctx, []types.RequestID{})\n", "	k.SetPendingResolveList(ctx, append([]types.RequestID{}, k.GetPendingResolveList(ctx)...))\n", "C01.R7:clear-is-empty", "the list is never cleared: every request is resolved again next block"},
 
+	{"C01-m9", "C01", "x/oracle/keeper/msg_server.go", "	reportInTime := !k.HasResult(ctx, msg.RequestID)", "	if req, err := k.GetRequest(ctx, msg.RequestID); err == nil && req.RequestHeight+int64(k.GetParams(ctx).ExpirationBlockCount) <= ctx.BlockHeight() {\n		return nil, types.ErrRequestAlreadyExpired\n	}\n	reportInTime := !k.HasResult(ctx, msg.RequestID)", "C01.R9:report-rejections", "reports in the expiry block are refused although the request has not expired yet"},
+
 	// ---------------- C02
 	{"C02-m1", "C02", "x/feeds/keeper/msg_server.go", "	sort.Strings(keys)\n", "	_ = sort.Strings\n", "C02.R1:lint", "state written in map order"},
 	{"C02-m2", "C02", "x/oracle/keeper/result.go", "	defer func() {\n		if r := recover(); r != nil {\n			ctx.Logger().Error(fmt.Sprintf(\"Panic recovered: %v\", r))\n			err = types.ErrCreateSigningPanic\n		}\n	}()\n", "", "C02.R3:bandtss-create-signing-recover", "a panic in bandtss halts the chain in oracle end-block"},
@@ -48,6 +50,8 @@ var mutants = []mutant{
 	{"C03-m6", "C03", "pkg/tss/hash.go", "		[]byte{rawGroupPubKey[0] + 25},", "		[]byte{rawGroupPubKey[0] + 27},", "C03.R2:hash|HashChallenge|layout", "challenge format drift shared by signer and verifier"},
 	{"C03-m7", "C03", "pkg/tss/signing.go", "		if id > 20 {", "		if id > 21 {", "C03.R1:lagrange", "ids above the table bound take the table path"},
 	{"C03-m8", "C03", "pkg/tss/hash.go", "	return Hash([]byte(ContextString), []byte(\"signCommitment\"), data)", "	return Hash([]byte(ContextString), []byte(\"signMsg\"), data)", "C03.R2:hash|HashSignCommitment|tag", "two hashes share a domain tag"},
+
+	{"C03-m9", "C03", "x/tss/keeper/msg_server.go", "	// Compute lagrange coefficient", "	if uint64(req.MemberID) > 20 {\n		return nil, types.ErrSubmitSigningSignatureFailed.Wrap(\"unsupported member id\")\n	}\n	// Compute lagrange coefficient", "C03.R3:share-rejections", "shares of members with ids above 20 are refused although they are correct"},
 
 	// ---------------- C04
 	{"C04-m1", "C04", "x/tss/keeper/keeper_group_round1.go", "	if uint64(len(round1Info.CoefficientCommits)) != group.Threshold {", "	if uint64(len(round1Info.CoefficientCommits)) < group.Threshold {", "C04.R2:round1-info-valid", "oversized commitment vector accepted"},
